@@ -256,8 +256,16 @@ func c12feed(c *core.Check) {
 		if !ok || !strings.Contains(rules.ExprString(is.Cond), "IsSetName") {
 			return true
 		}
+		// the variable under which unnamed items are filed: the key of fm.patch[...] in this branch
+		target := ""
+		ast.Inspect(is.Body, func(m ast.Node) bool {
+			if ix, ok := m.(*ast.IndexExpr); ok && strings.HasSuffix(rules.ExprString(ix.X), ".patch") {
+				target = rules.ExprString(ix.Index)
+			}
+			return true
+		})
 		for _, s := range is.Body.List {
-			if inner, ok := s.(*ast.IfStmt); ok && rules.ExprString(inner.Cond) == `last == ""` {
+			if inner, ok := s.(*ast.IfStmt); ok && target != "" && strings.ReplaceAll(rules.ExprString(inner.Cond), " ", "") == target+`==""` {
 				for _, b := range inner.Body.List {
 					if rs, ok := b.(*ast.ReturnStmt); ok && len(rs.Results) == 1 && !rules.IsNil(info, rs.Results[0]) {
 						okErr = true
